@@ -72,9 +72,9 @@ class SdcLocation:
         identifiers = []
         query_dict = {}
         for url_name in self.url_elements:
-            value = getattr(self, url_name) or ''  # None value becomes an empty string.
-            identifiers.append(value)
-            if value:
+            value = getattr(self, url_name)
+            identifiers.append(value or '')  # None value becomes an empty string.
+            if value is not None:  # an empty string is a value (present but empty), only None is absent
                 query_dict[url_name] = value
         identifiers = [quote(ident, safe='') for ident in identifiers]
         slash = quote('/', safe='')
@@ -134,7 +134,8 @@ class SdcLocation:
             raise UrlSchemeError(msg)
         dummy, root, _ = src.path.split('/')
         root = unquote(root)
-        query_dict = dict(parse_qsl(src.query))
+        # keep_blank_values: 'fac=' is an empty facility (present but empty), not a missing one
+        query_dict = dict(parse_qsl(src.query, keep_blank_values=True))
         # make a new argumentsDict with well known keys.
         # This allows to ignore unknown keys that might be present in query_dict
         arguments_dict = {}
